@@ -283,8 +283,62 @@ func fieldLoad(v ssa.Value) (ssa.Value, string) {
 	case *ssa.Field:
 		st := x.X.Type().Underlying().(*types.Struct)
 		return structBase(x.X), st.Field(x.Field).Name()
+	case *ssa.Call:
+		// a getter: a module method that only returns a field of its receiver
+		if fld := getterField(x); fld != "" {
+			return structBase(x.Call.Args[0]), fld
+		}
 	}
 	return nil, ""
+}
+
+// getterField: c calls a module function with one parameter whose whole body is
+// `return param.field`; returns the field's name.
+func getterField(c *ssa.Call) string {
+	if c.Call.IsInvoke() || len(c.Call.Args) != 1 || gp == nil {
+		return ""
+	}
+	g := rawStaticCallee(c)
+	if g == nil || !gp.inMod(g) || len(g.Blocks) != 1 || len(g.Params) != 1 {
+		return ""
+	}
+	var ret *ssa.Return
+	for _, in := range g.Blocks[0].Instrs {
+		switch x := in.(type) {
+		case *ssa.FieldAddr, *ssa.Field, *ssa.DebugRef:
+		case *ssa.UnOp:
+			if x.Op != token.MUL {
+				return ""
+			}
+		case *ssa.Alloc:
+			// value receiver spilled into a local
+		case *ssa.Store:
+			if _, isP := x.Val.(*ssa.Parameter); !isP {
+				return ""
+			}
+		case *ssa.Return:
+			ret = x
+		default:
+			return ""
+		}
+	}
+	if ret == nil || len(ret.Results) != 1 {
+		return ""
+	}
+	was := ht.enabled
+	ht.enabled = false
+	defer func() { ht.enabled = was }()
+	base, fld := fieldLoad(ret.Results[0])
+	if fld == "" || base == nil {
+		return ""
+	}
+	if b := plainDeref(base); b != ssa.Value(g.Params[0]) {
+		// value receiver: the base is the local copy of the parameter
+		if a, isA := base.(*ssa.Alloc); !isA || len(storesTo(a)) != 1 || storesTo(a)[0].val != ssa.Value(g.Params[0]) {
+			return ""
+		}
+	}
+	return fld
 }
 
 // structBase: a struct that is a local copy of a value loaded from somewhere (a by-value
@@ -561,9 +615,6 @@ func errorEdge(fn *ssa.Function, v ssa.Value) (nonNil *ssa.BasicBlock, nilB *ssa
 	b := t.If.Block()
 	nilB = b.Succs[t.NilSucc]
 	nonNil = b.Succs[1-t.NilSucc]
-	if len(nonNil.Preds) != 1 {
-		return nil, nil, false
-	}
 	return nonNil, nilB, true
 }
 
@@ -653,9 +704,6 @@ func ruleP05ApplyAbort(p *Prog, r *Report) {
 	if nonNilB, nilB, ok := errorEdge(f, rec); ok {
 		_ = nonNilB
 		msg := rejectComplete(nilB, failRet)
-		if len(nilB.Preds) != 1 {
-			msg = "nil edge is shared with other paths"
-		}
 		r.check(msg == "", rule, "no-reconciler:aborts", p.pos(f.Pos()), "no eligible record -> (nil, error) before any step", "a nil reconciler does not abort: "+msg)
 	} else {
 		r.bad(rule, "no-reconciler:tested", p.pos(f.Pos()), "the reconciler chosen by the creators is not tested for nil")
@@ -802,9 +850,6 @@ func (p *Prog) checkForwarding(fn *ssa.Function, e ssa.Value, errIdxOf func(*ssa
 	for _, t := range ts {
 		b := t.If.Block()
 		nonNil := b.Succs[1-t.NilSucc]
-		if len(nonNil.Preds) != 1 {
-			return "the non-nil edge of the error test is shared with other paths", ""
-		}
 		msg := rejectComplete(nonNil, func(ret *ssa.Return) string {
 			i := errIdxOf(ret)
 			if i < 0 || i >= len(ret.Results) {
@@ -1147,11 +1192,19 @@ func ruleP05Exit(p *Prog, r *Report) {
 			for _, c := range callsTo(f, nwc) {
 				n++
 				a := c.Common().Args[0]
-				if k, ok := constInt(a); ok {
-					if k < 1 {
-						r.bad(rule, "NewErrorWithCode:"+fnName(f), p.instrPos(c), "error constructed with status %d", k)
+				// the code is one of several constants (chosen on the way) or a forwarded parameter
+				_, ins := phiCycle(a)
+				bad := false
+				for _, in := range ins {
+					if k, ok := constInt(in); ok {
+						if k < 1 {
+							r.bad(rule, "NewErrorWithCode:"+fnName(f), p.instrPos(c), "error constructed with status %d", k)
+						}
+					} else if _, isParam := strip(in).(*ssa.Parameter); !isParam {
+						bad = true
 					}
-				} else if _, isParam := strip(a).(*ssa.Parameter); !isParam {
+				}
+				if bad {
 					r.bad(rule, "NewErrorWithCode:"+fnName(f), p.instrPos(c), "error code is neither a constant nor a forwarded parameter")
 				}
 			}
